@@ -15,7 +15,7 @@
 (* where ha, hb are the FIRST and SECOND filter arguments of the routine in  *)
 (* table order.  Rows/columns are symmetric (the row variants transpose).    *)
 (***************************************************************************)
-EXTENDS Idx, Op, TLC
+EXTENDS Idx, DTCWT1Src, Op, TLC
 
 \* Python slice xe[start:stop:step] over a length-n vector (start >= 0; stop may be negative or NoneIdx)
 SliceIdx(n, start, stop, step) ==
@@ -152,4 +152,14 @@ ImplColifilt(r, m, highpass) ==
          b |-> FromSrc(2 * r, m, r, LAMBDA y, t : Src("b", y, t))]
 
 SamePair(P, Q) == Same3(P.a, Q.a) /\ Same3(P.b, Q.b)
+
+(* ---- the scalar forms of module DTCWT1Src describe the coldfilt tensors (checked by TLC; proved equal by TLAPS) ---- *)
+ColdFromScalar(count, r, m, first, Src(_, _, _)) ==
+    [a |-> FromSrc(count, m, r, LAMBDA y, t : IF y % 2 = first THEN Src("a", y \div 2, t) ELSE -1),
+     b |-> FromSrc(count, m, r, LAMBDA y, t : IF y % 2 # first THEN Src("b", y \div 2, t) ELSE -1)]
+ColdScalarForm(r, m, hp) ==
+    /\ SamePair(ImplColdfilt(r, m, hp),
+                ColdFromScalar(ImplColdCount(r, m), r, m, IF hp THEN 1 ELSE 0, LAMBDA tr, v, t : ImplColdSrc(r, m, tr, v, t)))
+    /\ SamePair(RefColdfilt(r, m, ~hp),
+                ColdFromScalar(RefColdCount(r, m), r, m, IF ~hp THEN 0 ELSE 1, LAMBDA tr, v, t : RefColdSrc(r, m, tr, v, t)))
 =============================================================================
